@@ -148,8 +148,21 @@ def clause_a(ctx: Context, idx, res) -> None:
         if isinstance(s, ast.Return):
             break
         it.stmt(s)
-    ss = it.env.get("scaled_samples")
-    mp = it.env.get("mean_positions")
+    # the locals are found by their role, not by their name: the samples are what the returned branches iterate over, the mean
+    # positions are what is handed to the one-mode sampler as `mean_position`
+    ss_name, mp_name = "scaled_samples", "mean_positions"
+    for s in hfn.node.body:
+        if isinstance(s, ast.Return) and isinstance(s.value, ast.ListComp) and s.value.generators and isinstance(s.value.generators[0].iter, ast.Name):
+            ss_name = s.value.generators[0].iter.id
+    for c in ast.walk(hfn.node):
+        if isinstance(c, ast.Call) and (dotted(c.func) or "").endswith("_homodyne_measurement_one_mode"):
+            a = next((k.value for k in c.keywords if k.arg == "mean_position"), c.args[2] if len(c.args) > 2 else None)
+            while isinstance(a, ast.Subscript):
+                a = a.value
+            if isinstance(a, ast.Name):
+                mp_name = a.id
+    ss = it.env.get(ss_name)
+    mp = it.env.get(mp_name)
     key = f"{hfn.qualname}|samples have degree 1/2, kernel inputs degree 0"
     if ss is None or ss.kind in ("unknown", "poly") or mp is None or mp.kind == "unknown":
         if ss is not None and ss.kind == "poly":
